@@ -479,6 +479,14 @@ func buildUpdateEvents(graph *Graph, repoDir, id string, task *Task, updates map
 		if !isEpic(epic) {
 			return nil, fmt.Errorf("task %s is not an epic", epicID)
 		}
+		// Moving the task may close a waits-for cycle through epic dependencies.
+		previous := task.EpicID
+		task.EpicID = epicID
+		cyclic := hasWaitsForCycle(graph)
+		task.EpicID = previous
+		if cyclic {
+			return nil, fmt.Errorf("assigning %s to epic %s would create a dependency cycle (through epic dependencies)", id, epicID)
+		}
 	}
 
 	// Build events using pure function, passing I/O-dependent body resolver
